@@ -191,7 +191,7 @@ func (k *Kernel) hook() ErrorHook {
 		for _, h := range hp.Headers {
 			w.Header().Set(h[0], h[1])
 		}
-		if hp.Status > 0 {
+		if hp.Status > 0 && hookStatusApplies(hp, call) {
 			w.WriteHeader(hp.Status)
 			k.Stats.Probe("hook_called_writeheader")
 		}
@@ -212,4 +212,21 @@ func (k *Kernel) hook() ErrorHook {
 		k.Event("hook-exit", "op=%d", id)
 		return out
 	}
+}
+
+// hookStatusApplies: a hook may set the status for some error sources only.
+func hookStatusApplies(hp *HookPlan, call *CallState) bool {
+	if len(hp.StatusOnlyFor) == 0 {
+		return true
+	}
+	if call == nil {
+		return false
+	}
+	src := noteOf(call.Op, "source")
+	for _, s := range hp.StatusOnlyFor {
+		if s == src {
+			return true
+		}
+	}
+	return false
 }
